@@ -137,6 +137,14 @@ pub fn comp_string(r: &mut Rng, no_slash: bool) -> String {
     let hostility = *r.pick(&[0usize, 10, 35, 35, 70, 100]);
     let mut s = String::new();
     for _ in 0..n {
+        if hostility > 0 && r.chance(1, 25) {
+            // literal text that looks like an escape (its '%' must be written as %25)
+            let l = *r.pick(crate::gen::ESCAPE_LOOKALIKES);
+            if !(no_slash && l.contains('/')) {
+                s.push_str(l);
+                continue;
+            }
+        }
         let mut c = comp_char(r, hostility);
         if no_slash && c == '/' {
             c = *r.pick(&['a', '\\', '%', '.']);
@@ -753,9 +761,14 @@ pub fn inject(r: &mut Rng, t: &Tuple, sp: &Spelled, kind: &str) -> Option<String
                 },
             };
             let k2: String = k.chars().map(|c| if r.coin() { c.to_ascii_uppercase() } else { c.to_ascii_lowercase() }).collect();
-            // no existing empty-valued item may share the key (that would be the unspecified case)
-            let at = r.below(s.items.len() + 1);
-            s.items.insert(at, format!("{k2}=y"));
+            if r.chance(1, 4) {
+                // three occurrences: non-empty, empty, non-empty (the empty one must not "re-arm" the key)
+                s.items.push(format!("{k}="));
+                s.items.push(format!("{k2}=y"));
+            } else {
+                let at = r.below(s.items.len() + 1);
+                s.items.insert(at, format!("{k2}=y"));
+            }
         },
         "utf8-namespace" => {
             if s.ns.iter().all(|p| p.is_empty()) {
